@@ -348,6 +348,8 @@ impl State for FileState {
         );
         let bytes = entry.to_bytes();
         self.entries_count.fetch_add(1, Ordering::SeqCst);
+        #[cfg(feature = "verif")]
+        crate::verif::sched_point("state_apply_before_append").await;
         self.persister
             .append(&self.path, &bytes)
             .await
